@@ -151,6 +151,27 @@ std::shared_ptr<ThreadEventList> TraceRecorder::getThreadTraceList(
   return fnd->second;
 }
 
+// names come from the application (file names, user labels): write them as JSON
+// string contents, i.e. with quotes, backslashes and control characters escaped
+static std::string jsonEscaped(const char *str)
+{
+  std::string out;
+  for (const char *c = str; c && *c; ++c) {
+    const unsigned char u = static_cast<unsigned char>(*c);
+    if (u == '"' || u == '\\') {
+      out += '\\';
+      out += *c;
+    } else if (u < 0x20) {
+      char buf[8];
+      snprintf(buf, sizeof(buf), "\\u%04x", (unsigned)u);
+      out += buf;
+    } else {
+      out += *c;
+    }
+  }
+  return out;
+}
+
 void TraceRecorder::saveLog(const char *logFile, const char *processName)
 {
   std::lock_guard<std::mutex> lock(threadTraceMutex);
@@ -180,7 +201,7 @@ void TraceRecorder::saveLog(const char *logFile, const char *processName)
          << "\"tid\":" << 0 << ","
          << "\"name\":"
          << "\"process_name\","
-         << "\"args\":{\"name\":\"" << processName << "\"}"
+         << "\"args\":{\"name\":\"" << jsonEscaped(processName) << "\"}"
          << "},";
   }
 
@@ -200,7 +221,7 @@ void TraceRecorder::saveLog(const char *logFile, const char *processName)
          << "\"thread_name\","
          << "\"args\":{\"name\":\"";
     if (!trace.second->threadName.empty()) {
-      fout << trace.second->threadName << "\"}";
+      fout << jsonEscaped(trace.second->threadName.c_str()) << "\"}";
     } else {
       fout << tid << "\"}";
     }
@@ -232,9 +253,9 @@ void TraceRecorder::saveLog(const char *logFile, const char *processName)
              << "\"pid\":" << pid << ","
              << "\"tid\":" << nextTid << ","
              << "\"ts\":" << timestamp << ","
-             << "\"name\":\"" << (evt.name ? evt.name : "") << "\"";
+             << "\"name\":\"" << jsonEscaped(evt.name) << "\"";
         if (evt.type != EventType::END && evt.category) {
-          fout << ",\"cat\":\"" << evt.category << "\"";
+          fout << ",\"cat\":\"" << jsonEscaped(evt.category) << "\"";
         }
 
         // Compute CPU utilization % over the begin/end interval for end events
